@@ -134,14 +134,23 @@ HashsumStr` is an inclusion of the accepted strings … -/
 theorem installedStrings_sound_except (k k' : CStr) (h : cstrSub k k' = true)
     (hne : ¬ (k = .qhash ∧ k' = .hash)) : ∀ s, recog k s = true → recog k' s = true := by
   intro s hs
-  cases k <;> cases k' <;> simp [cstrSub] at h hne <;> simp only [recog] at hs ⊢
-  · exact hs
-  · exact mime_nes s hs
-  · exact hs
-  · exact hash_nes s hs
-  · exact hs
-  · exact qhash_nes s hs
-  · exact hs
+  match k, k', h, hne, hs with
+  | .nes, .nes, _, _, hs => exact hs
+  | .mime, .mime, _, _, hs => exact hs
+  | .hash, .hash, _, _, hs => exact hs
+  | .qhash, .qhash, _, _, hs => exact hs
+  | .mime, .nes, _, _, hs => exact mime_nes s hs
+  | .hash, .nes, _, _, hs => exact hash_nes s hs
+  | .qhash, .nes, _, _, hs => exact qhash_nes s hs
+  | .qhash, .hash, _, hne, _ => exact absurd ⟨rfl, rfl⟩ hne
+  | .nes, .mime, h, _, _ => exact absurd h (by decide)
+  | .nes, .hash, h, _, _ => exact absurd h (by decide)
+  | .nes, .qhash, h, _, _ => exact absurd h (by decide)
+  | .mime, .hash, h, _, _ => exact absurd h (by decide)
+  | .mime, .qhash, h, _, _ => exact absurd h (by decide)
+  | .hash, .mime, h, _, _ => exact absurd h (by decide)
+  | .hash, .qhash, h, _, _ => exact absurd h (by decide)
+  | .qhash, .mime, h, _, _ => exact absurd h (by decide)
 
 /-- … and that one is not (known finding F12): the witness the real code shows too. -/
 theorem qualhashsum_not_subtype :
@@ -152,11 +161,7 @@ theorem qualhashsum_not_subtype :
       accepts env (.cstr .hash) (.str "sha256:ab".toList) = false) := by
   refine ⟨by decide, by decide, by decide, ?_⟩
   intro env T
-  refine ⟨by simp [isSubtype, isAnn, isLit, canon, le, dataLe, atomSub, cstrSub], ?_, ?_⟩
-  · have : recog .qhash "sha256:ab".toList = true := by decide
-    simp [accepts, decode, this]
-  · have : recog .hash "sha256:ab".toList = false := by decide
-    simp [accepts, decode, this]
+  exact ⟨by rfl, by rfl, by rfl⟩
 
 /-- hence no class table containing both is sound -/
 theorem classTable_unsound_with_qualhashsum (env : Env) (T : Table) (R : Reg) :
@@ -171,8 +176,7 @@ theorem classTable_unsound_with_qualhashsum (env : Env) (T : Table) (R : Reg) :
 /-- `Optional[X]` is never a subtype of a plain atom -/
 theorem optional_not_subtype (T : Table) (k : Ty) (hk : k = .bool ∨ k = .int ∨ k = .float ∨ k = .str) :
     isSubtype T (.opt k) k = false := by
-  rcases hk with rfl | rfl | rfl | rfl <;>
-    simp [isSubtype, isAnn, isLit, canon, mkSum, CT.flat, CT.oneOfVals, le, leAll, dataLe, atomSub, isa, isaAtom]
+  rcases hk with rfl | rfl | rfl | rfl <;> rfl
 
 /-- between Literals the test is exactly inclusion of the value sets (Python `==`) -/
 theorem literal_subtype_iff (T : Table) (vs ws : List Lit) :
@@ -212,10 +216,11 @@ theorem child_valid_in_parent (env : Env) (nc np : Str) (ec ep : Extra) (fsc fsp
   obtain ⟨hF, hC, hX⟩ := hE
   have hxs' := extras_filter_self ec fsc csc xs hxs
   have hlook := dump_lookup env ec fsc csc xs fvs hfs hxs hnd hdisj
+  simp only [List.append_assoc] at hlook
   have hkeys := ValidFs_keys env fsc fvs hfs
   rw [accepts_iff]
   -- every field of the base validates
-  have hall : ∀ g ∈ fsp, ∃ r, decodeField env g (encodeFields fvs ++ csc ++ xs) = .ok r := by
+  have hall : ∀ g ∈ fsp, ∃ r, decodeField env g (encodeFields fvs ++ (csc ++ xs)) = .ok r := by
     intro g hg
     obtain ⟨n, tg, reqg, dg⟩ := g
     obtain ⟨t', req', d', hmem, hsub, hopt⟩ := hF n tg reqg dg hg
@@ -233,7 +238,7 @@ theorem child_valid_in_parent (env : Env) (nc np : Str) (ec ep : Extra) (fsc fsp
       obtain ⟨x, hx⟩ := (accepts_iff env tg _).mp (hsub w hval)
       exact ⟨(n, x), by simp [decodeField, hl, hx, mapOk]⟩
   obtain ⟨pf, hpf⟩ := decodeFields_ok_of_all env fsp _ hall
-  simp only [encode, hxs', decode, asDict, hpf]
+  simp only [encode, hxs', decode, asDict, List.append_assoc, hpf]
   cases ep with
   | allow => exact ⟨_, rfl⟩
   | ignore => exact ⟨_, rfl⟩
@@ -241,8 +246,8 @@ theorem child_valid_in_parent (env : Env) (nc np : Str) (ec ep : Extra) (fsc fsp
     obtain ⟨rfl, hsubF, hsubC⟩ := hX rfl
     simp only [ExtrasOk] at hxs
     subst hxs
-    have hempty : (encodeFields fvs ++ csc ++ []).filter
-        (fun p => !(fsp.any (fun f => fieldName f == p.1)) && !hasKey p.1 csp) = [] := by
+    have hempty : (encodeFields fvs ++ (csc ++ [])).filter
+        (fun (p : Str × Json) => !(fsp.any (fun f => fieldName f == p.1)) && !hasKey p.1 csp) = [] := by
       apply List.filter_eq_nil_iff.mpr
       intro p hp
       simp only [List.append_nil, List.mem_append] at hp
